@@ -92,6 +92,93 @@ let contains (s : string) (sub : string) : bool =
   let rec go i = i + m <= n && (String.sub s i m = sub || go (i + 1)) in
   m = 0 || go 0
 
+(* ---------------------------------------------------------------------------------------------
+   State-level correspondence: the extracted CONCRETE model of pdr.rs (Model/PdrImpl.v) is run with
+   the real solver's answers (recorded by the cfg(patronus_verif) trace hook) as its oracle; the
+   sequence of queries it asks, the cubes it blocks, the frames it adds and its verdict must be
+   those of the real run, event by event.  Cubes are compared as sets (pdr.rs builds generalised
+   cubes by iterating hash sets).  *)
+type tlit = string * int * bool
+type tans = TSat of tlit list | TUnsat of tlit list | TUnknown
+type tev =
+  | TQ of string * frame_id * bool * tlit list * tlit list * tans
+  | TBlock of frame_id * tlit list
+  | TAdd of int
+
+let rec nat_of_int (i : int) : nat = if i <= 0 then O else S (nat_of_int (i - 1))
+
+let parse_lit = function
+  | Sexp.List [Sexp.Atom "l"; n; b; p] -> (Sexp.atom n, int_of_string (Sexp.atom b), Sexp.atom p = "1")
+  | x -> raise (Sexp.Parse_error ("bad literal " ^ Sexp.to_string x))
+let parse_frame a = match Sexp.atom a with
+  | "inf" -> FInf | "0" -> FInit | k -> FFinite (nat_of_int (int_of_string k))
+let parse_tev = function
+  | Sexp.List [Sexp.Atom "q"; k; f; neg; Sexp.List (Sexp.Atom "fixed" :: fx); Sexp.List (Sexp.Atom "sel" :: sl); ans] ->
+      let a = match ans with
+        | Sexp.List (Sexp.Atom "sat" :: m) -> TSat (List.map parse_lit m)
+        | Sexp.List (Sexp.Atom "unsat" :: c) -> TUnsat (List.map parse_lit c)
+        | _ -> TUnknown in
+      TQ (Sexp.atom k, parse_frame f, Sexp.atom neg = "1", List.map parse_lit fx, List.map parse_lit sl, a)
+  | Sexp.List (Sexp.Atom "block" :: f :: c) -> TBlock (parse_frame f, List.map parse_lit c)
+  | Sexp.List [Sexp.Atom "addframe"; a] -> TAdd (int_of_string (Sexp.atom a))
+  | x -> raise (Sexp.Parse_error ("bad trace event " ^ Sexp.to_string x))
+
+let kind_name = function KBad -> "bad" | KRelInd -> "relind" | KGenCheck -> "gencheck" | KGenFix -> "genfix" | KInf -> "inf"
+let set_eq (a : tlit list) (b : tlit list) = List.sort_uniq compare a = List.sort_uniq compare b
+let frame_str = function FInit -> "0" | FFinite k -> string_of_int (int_of_nat k) | FInf -> "inf"
+
+(* None = the model reproduces the run; Some reason otherwise.  Second component: statistics. *)
+let replay_trace (evs : tev list) ~(gen_on : bool) ~(has_bads : bool) ~(impl : string) : string option * (int * int * int) =
+  let answers = Array.of_list (List.filter_map (function TQ (_, _, _, _, _, a) -> Some a | _ -> None) evs) in
+  let exhausted = ref false in
+  let solve (n : nat) (_ : tlit query) : (tlit, tlit list) answer =
+    let i = int_of_nat n in
+    if i < Array.length answers then
+      (match answers.(i) with TSat m -> ASat m | TUnsat c -> AUnsat c | TUnknown -> AUnknown)
+    else (exhausted := true; AUnknown) in
+  let bmc = if impl = "fail" then BmcFail () else BmcOther in
+  let fuel = nat_of_int 5000 in
+  let r = pdr (fun a b -> a = b) (fun m -> m) solve gen_on has_bads bmc fuel fuel in
+  let nq = Array.length answers in
+  let nb = List.length (List.filter (function TBlock _ -> true | _ -> false) evs) in
+  let nf = List.length (List.filter (function TAdd _ -> true | _ -> false) evs) in
+  let stats = (nq, nb, nf) in
+  match r with
+  | Err e -> (Some (Printf.sprintf "model-err:%s" (match e with EUnknown k -> "unknown-" ^ kind_name k | EOrigCube -> "orig-cube")), stats)
+  | Panic n -> (Some (Printf.sprintf "model-panic:%d" (int_of_nat n)), stats)
+  | Fuel -> (Some "model-out-of-fuel", stats)
+  | Ok (v, st) ->
+      let mlog = List.rev st.p_log in
+      let rec cmp i ml tl =
+        match ml, tl with
+        | [], [] -> None
+        | [], _ -> Some (Printf.sprintf "event %d: the real run continues, the model stopped" i)
+        | _, [] -> Some (Printf.sprintf "event %d: the model continues, the real run stopped" i)
+        | EvQuery (q, _) :: mr, TQ (k, f, neg, fx, sl, _) :: tr ->
+            if kind_name q.q_kind <> k then Some (Printf.sprintf "event %d: query kind %s vs %s" i (kind_name q.q_kind) k)
+            else if q.q_frame <> f then Some (Printf.sprintf "event %d (%s): frame %s vs %s" i k (frame_str q.q_frame) (frame_str f))
+            else if (q.q_neg <> None) <> neg then Some (Printf.sprintf "event %d (%s): negated cube assumed differs" i k)
+            else if not (set_eq q.q_fixed fx) then Some (Printf.sprintf "event %d (%s): TO_STEP conjunction differs" i k)
+            else if not (set_eq q.q_sel sl) then Some (Printf.sprintf "event %d (%s): TO_STEP literals differ" i k)
+            else if (match q.q_neg with Some c -> not (set_eq c (if k = "inf" then fx else sl)) | None -> false)
+            then Some (Printf.sprintf "event %d (%s): negated cube differs" i k)
+            else cmp (i + 1) mr tr
+        | EvBlock (f, c) :: mr, TBlock (f', c') :: tr ->
+            if f <> f' then Some (Printf.sprintf "event %d: blocked at frame %s vs %s" i (frame_str f) (frame_str f'))
+            else if not (set_eq c c') then Some (Printf.sprintf "event %d: blocked cube differs at frame %s" i (frame_str f))
+            else cmp (i + 1) mr tr
+        | EvAddFrame a :: mr, TAdd a' :: tr ->
+            if int_of_nat a <> a' then Some (Printf.sprintf "event %d: activation literal id of the new frame %d vs %d" i (int_of_nat a) a')
+            else cmp (i + 1) mr tr
+        | _, _ -> Some (Printf.sprintf "event %d: different kinds of events" i) in
+      (match cmp 0 mlog evs with
+       | Some m -> (Some m, stats)
+       | None ->
+           if !exhausted then (Some "the model asked more queries than the real run", stats)
+           else
+             let mv = match v with VSuccess -> "success" | VFail _ -> "fail" | VUnknown -> "unknown" in
+             if mv <> impl then (Some (Printf.sprintf "verdict %s vs %s" mv impl), stats) else (None, stats))
+
 let handle (x : Sexp.t) : string =
   let id, fs = case_fields x in
   let sys_sx = List.find (function Sexp.List (Sexp.Atom "sys" :: _) -> true | _ -> false) fs in
@@ -116,8 +203,23 @@ let handle (x : Sexp.t) : string =
   | Some v ->
       let vs = verdict_str v in
       let clean s = String.map (fun c -> if c = '\n' || c = '\t' || c = '\r' then ' ' else c) s in
-      let res status key detail = Registry.result ~id ~status ~key:(clean key) ~detail:(clean (Printf.sprintf "spec=%s impl=%s cfg=%s %s" vs
-          (match impl with Sexp.Atom a -> a | Sexp.List (Sexp.Atom a :: _) -> a | _ -> "?") cfg detail)) () in
+      let impl_name = (match impl with Sexp.Atom a -> a | Sexp.List (Sexp.Atom a :: _) -> a | _ -> "?") in
+      let res status key detail =
+        (* the state-level correspondence is evaluated on the runs whose verdict is right *)
+        let (status, key, detail) =
+          if status <> "ok" then (status, key, detail)
+          else match Sexp.field_opt "trace" fs with
+            | Some (Sexp.Atom "on" :: evs) ->
+                let gen_on = Sexp.atom (Sexp.field1 "gen" fs) = "on" in
+                (match replay_trace (List.map parse_tev evs) ~gen_on ~has_bads:(sy.s_bads <> []) ~impl:impl_name with
+                 | (None, (nq, nb, nf)) -> ("ok", key, Printf.sprintf "%s trace=ok queries=%d blocks=%d frames=%d" detail nq nb nf)
+                 | (Some m, _) ->
+                     let cls = if String.length m >= 5 && String.sub m 0 5 = "event" then "event-mismatch"
+                       else if String.length m >= 7 && String.sub m 0 7 = "verdict" then "verdict-mismatch"
+                       else List.hd (String.split_on_char ':' (List.hd (String.split_on_char ' ' m))) in
+                     ("diff", "pdr-model:" ^ cls, "concrete model vs real run: " ^ m))
+            | _ -> (status, key, detail ^ " trace=off") in
+        Registry.result ~id ~status ~key:(clean key) ~detail:(clean (Printf.sprintf "spec=%s impl=%s cfg=%s %s" vs impl_name cfg detail)) () in
       (match impl, v with
        | Sexp.Atom "success", Safe -> res "ok" "safe" ""
        | Sexp.Atom "success", Unsafe _ -> res "fail" ("pdr:success-on-unsafe" ^ qual) "PDR answered success although a bad state is reachable"
